@@ -843,6 +843,20 @@ func (e *Env) call(v *ast.CallExpr, want *Sort) T {
 		}
 		n := *e
 		n.st = e.old
+		if g.calleeDepth == 0 && g.paramEnv != nil {
+			// in the function's own clauses old(p) of a parameter the body reassigns is the
+			// value it was called with, not the loop variable it has become
+			nv := make(map[string]T, len(e.vars))
+			for k, x := range e.vars {
+				nv[k] = x
+			}
+			for k, x := range g.paramEnv {
+				if _, ok := nv[k]; ok {
+					nv[k] = x
+				}
+			}
+			n.vars = nv
+		}
 		t := n.compile(v.Args[0], want)
 		e.errs = n.errs
 		return t
